@@ -138,6 +138,12 @@ class Recorder:
         if self.op is None:
             return
         self._resolve()
+        if f.time != f.time:
+            # NaN time: `time >= tottime` can never hold again; the trajectory is
+            # non-finite (outside the properties): stop the run now, as a discard
+            self.op.budget_hit = True
+            self.ev("budget-nan")
+            raise SimBudget("NaN time")
         if self.op.counts["tick"] >= TICK_BUDGET:
             self.op.budget_hit = True
             self.ev("budget")
